@@ -40,7 +40,7 @@ REQUIRED = dict(monitors=['restricted-equals-full', 'restricted-grid-is-subset',
                           'opacity-part-of-a-request-equals-the-whole-request-there'],
                 classes=['sequence:fault', 'grid:inside', 'grid:edge', 'grid:partly-outside', 'grid:observation', 'model:emission',
                          'different-native-grids', 'layout:xsec', 'layout:ktable', 'contrib:HydrogenIon',
-                         'sliding-window-same-size', 'request:own-full', 'request:foreign-same-ends-and-count',
+                         'sliding-window-same-size', 'request:own-full', 'request:own-points-descending', 'request:own-points-interleaved', 'request:foreign-same-ends-and-count',
                          'request:foreign-shifted-same-count', 'request:own-sub-range', 'request:foreign-random',
                          'requested-order:ascending', 'requested-order:descending', 'requested-order:shuffled', 'requested-order:file-order-with-an-outlying-row',
                          'emission:same-size-window', 'emission:star-written-between-evaluations',
@@ -514,6 +514,11 @@ def wl_opacity(ctx, rng):
         kinds = ['own-sub-range' if rng.random() < 0.7 else 'foreign-random' for _ in range(nr)]
         kinds += ['repeat:%d' % int(rng.integers(0, max(nr - 40, 1))) for _ in range(int(rng.integers(10, 25)))]
         ctx.observe('history:dozens-of-ranges-then-earlier-ranges-again')
+    if ctx.case['index'] % 3 == 1 and len(wn) >= 3 and layout != 'ktable':
+        # the table's own points in ANOTHER ORDER (descending, or interleaved: a caller working in wavelength): every value
+        # returned belongs to the wavenumber at the same position of the request (cross-section tables only: a k-table
+        # answers such a request through interp1d, whose value AT a node depends on the neighbouring node -- not judged)
+        kinds = kinds + ['own-points-descending', 'own-points-interleaved']
     if ctx.case['index'] % 5 == 0:
         # a deliberate order: the table's own grid first, then another grid with the same ends and the same count
         kinds = ['own-full', 'foreign-same-ends-and-count'] + kinds
@@ -536,6 +541,14 @@ def wl_opacity(ctx, rng):
             grid = wn[i0:i1].copy()
         elif kind == 'own-full':
             grid = wn.copy()
+        elif kind in ('own-points-descending', 'own-points-interleaved'):
+            if rng.random() < 0.5:
+                i0, i1 = 0, len(wn)
+            else:
+                i0 = int(rng.integers(0, len(wn) - 2))
+                i1 = int(rng.integers(i0 + 3, len(wn) + 1))
+            grid = wn[i0:i1].copy()
+            grid = grid[::-1].copy() if kind == 'own-points-descending' else np.concatenate([grid[0::2], grid[1::2]])
         elif kind == 'foreign-same-ends-and-count':
             if len(wn) < 3:
                 continue
